@@ -27,6 +27,7 @@ func main() {
 	only := fs.Int("case", -1, "run only this case index")
 	gov := fs.Bool("gov", false, "include governance token delisting")
 	dir := fs.Bool("directed", false, "boundary-directed stream")
+	cons := fs.Bool("consistent", false, "with -hostile: executions stay within the contract's nonce and timeout rules")
 	many := fs.Bool("many", false, "more than 100 pending batches of one token before the restart")
 	fs.Parse(os.Args[2:])
 
@@ -35,6 +36,7 @@ func main() {
 	stats := map[string]int{}
 	directed = *dir
 	manyBatches = *many
+	consistentExec = *cons
 	switch suite {
 	case "hub", "genesis", "det", "blocks":
 		genesisMode = suite == "genesis"
